@@ -213,6 +213,40 @@ def big_merge_case(ctx, seed, total):
     judge_merge(ctx, tracks, rng.random() < 0.5, {'kind': 'big-merge', 'seed': seed, 'total': total})
 
 
+def nested_merge_case(ctx, seed):
+    """The tracks handed to merge_tracks are produced lazily and call merge_tracks themselves."""
+    rng = random.Random(seed)
+    groups = [rand_tracks(rng, False)[:3] for _ in range(rng.randrange(2, 4))]
+    groups = [[MidiTrack(m for m in tr if getattr(m, 'note', 0) != 300) for tr in g] for g in groups]
+    case = {'kind': 'nested-merge', 'seed': seed}
+    try:
+        inner_expected = [merge_tracks(g) for g in groups]
+        want_items, want_total = model_merge(inner_expected)
+
+        def lazy_tracks():
+            for g in groups:
+                yield merge_tracks(g)                  # a merge while the outer call is collecting
+
+        def lazy_track(g):
+            yield from merge_tracks(g)
+        for variant in ('generator-of-merges', 'tracks-are-generators'):
+            arg = lazy_tracks() if variant == 'generator-of-merges' else [lazy_track(g) for g in groups]
+            out = merge_tracks(arg)
+            body = [m for m in out if m.type != 'end_of_track']
+            now, abs_got = 0, []
+            for m in out:
+                now += m.time
+                if m.type != 'end_of_track':
+                    abs_got.append(now)
+            ok = (len(body) == len(want_items) and abs_got == [it[0] for it in want_items] and now == want_total
+                  and all({k: v for k, v in vars(g).items() if k != 'time'} == {k: v for k, v in vars(w[3]).items() if k != 'time'}
+                          for g, w in zip(body, want_items)))
+            ctx.check('messages and order == model', ok, f'nested-merge:{variant}', case,
+                      {'got': len(body), 'want': len(want_items), 'duration': [now, want_total]})
+    except Exception as exc:
+        ctx.fail('no exception', f'nested-merge:{type(exc).__name__}', case, repr(exc))
+
+
 def merge_case(ctx, seed):
     rng = random.Random(seed)
     skip = rng.random() < 0.5
@@ -277,6 +311,10 @@ def run(ctx):
         if j < 2:
             tr = rand_tracks(random.Random(seed), False)
             ctx.put_sample({'seed': seed, 'tracks': [[str(m)[:50] for m in t[:4]] for t in tr[:3]]})
+    for j in range(20 if ctx.tier == 'quick' else 500):
+        nested_merge_case(ctx, f'{ctx.seed}:{ctx.shard}:n{j}')
+        ctx.nontrivial(('nested', ctx.seed, ctx.shard, j))
+        n += 1
     sizes = (4095, 4096, 4097, 5000, 12000)
     for si, total in enumerate(sizes):
         if si % ctx.nshards == ctx.shard or (ctx.tier == 'thorough' and (si + 5) % ctx.nshards == ctx.shard):
@@ -287,7 +325,9 @@ def run(ctx):
 
 
 def replay(ctx, case):
-    if case['kind'] == 'big-merge':
+    if case['kind'] == 'nested-merge':
+        nested_merge_case(ctx, case['seed'])
+    elif case['kind'] == 'big-merge':
         big_merge_case(ctx, case['seed'], case['total'])
     elif case['kind'] == 'merge':
         merge_case(ctx, case['seed'])
